@@ -142,7 +142,9 @@ def main():
     res = {"models_hash": models_hash(), "prover": pr, "cpython": cp["results"], "bad_prover": pbad, "bad_cpython": cp["bad"]}
     json.dump(res, open(V / "selftest" / "RESULTS.json", "w"), indent=1, sort_keys=True)
     print(f"selftest: {len(pr)} probes; prover failures: {pbad}; cpython failures: {cp['bad']}")
-    sys.exit(1 if (pbad or cp["bad"]) else 0)
+    # the counter-model refinement on hand-built obligations (hints never prove; one model for everything)
+    rr = subprocess.run([sys.executable, str(V / "tools" / "test_refine.py")], text=True)
+    sys.exit(1 if (pbad or cp["bad"] or rr.returncode != 0) else 0)
 
 
 if __name__ == "__main__":
